@@ -389,3 +389,8 @@ V("C20", "routine_writes_undeclared_value", "violation", (TDS, "            conf
 V("C13", "corrections_floats_only", "violation", ("andes/core/param.py", "        if isinstance(value, (int, float, np.integer, np.floating)) and not isinstance(value, (bool, np.bool_)):", "        if isinstance(value, float):"), rule="C13.numeric-type")
 V("C13", "benign_corrections_numbers_real", "silent", ("andes/core/param.py", "        if isinstance(value, (int, float, np.integer, np.floating)) and not isinstance(value, (bool, np.bool_)):", "        if isinstance(value, (float, int, np.floating, np.integer)) and not isinstance(value, (np.bool_, bool)):"))
 V("C17", "benign_criterion_operand_guard_order", "silent", (TDS, "        if self.config.criteria:\n            system.connectivity(info=False)\n", "        if self.config.criteria != 0:\n            system.connectivity(False)\n"))
+V("C15", "output_addr_ascending_positions", "violation", ("andes/models/misc/output.py", "        output_addr = np.array([column[int(ad)] for ad in addr if int(ad) in column], dtype=int)\n", "        output_addr = np.where(np.isin(stored, addr))[0]\n"), rule="C15.index")
+V("C15", "get_data_subindex_after_translation", "violation", ("andes/variables/dae.py", "                    indices = self.dae.system.Output.to_output_addr(base_var, check=True, a=a)\n                    if len(indices) == 0:\n                        continue\n                    out = np.hstack((out, self._access_array(array_code, indices)))\n                    continue\n", "                    indices = self.dae.system.Output.to_output_addr(base_var, check=True)\n                    if len(indices) == 0:\n                        continue\n"), rule="C15.index")
+V("C15", "benign_output_addr_loop_form", "silent", ("andes/models/misc/output.py", "        output_addr = np.array([column[int(ad)] for ad in addr if int(ad) in column], dtype=int)\n", "        cols = []\n        for ad in addr:\n            if int(ad) in column:\n                cols.append(column[int(ad)])\n        output_addr = np.array(cols, dtype=int)\n"))
+V("C08", "sweep_relies_on_lazy_jacobian", "violation", (EIG, "            if not self._pre_check():\n                logger.error(\"Parameter sweep stopped at round %d.\", count)\n                return results\n", "            self.system.TDS.init()\n            self.system.TDS.itm_step()\n"), rule="C08.fresh")
+V("C08", "benign_sweep_explicit_jupdate", "silent", (EIG, "            if not self._pre_check():\n                logger.error(\"Parameter sweep stopped at round %d.\", count)\n                return results\n", "            if not self._pre_check():\n                logger.error(\"Parameter sweep stopped at round %d.\", count)\n                return results\n            self.system.j_update(self.system.exist.pflow_tds)\n"))
